@@ -1847,3 +1847,7 @@ mod test {
         assert!(!cache.contains(&1));
     }
 }
+
+#[cfg(feature = "verif-hooks")]
+#[path = "/verif/kani/hooks_two_queue.rs"]
+mod verif_hooks;
